@@ -265,6 +265,26 @@ register('C08',
          'DESIGN.md 5/C08')
 
 
+register('C12',
+         'NistStats.tla decides what is integer about the SP 800-22 tests: the parameter ladders (block-frequency block size, '
+         'longest-run parameter sets, template length, m_max of Serial / ApproximateEntropy, Universal L), the exact '
+         'insufficient-data thresholds, the number of returned p-values, and the integer statistics (S_n, V_n, ones per block, '
+         'longest-run bins, cumulative-sum extrema forward / backward, cycle count, state visits), written definitionally and - '
+         'for the walk - as an AppendBit machine that TLC checks against the definitions for every string up to 12 bits together '
+         'with the reversal and complement lemmas; the M = 8 longest-run table is enumerated exactly by TLC; TLC refutes the pinned '
+         'backward statistic (D3). Replays: every string up to 8 bits (11 thorough) through Frequency / Runs / RandomWalk, a grid of '
+         'lengths on both sides of every threshold x string classes through all 13 tests, and invariance pairs (complement, reverse, '
+         'rotate). NistTrace.tla decides per record: insufficient-data exactly below the minimum, ladder, integer statistic = '
+         'specification (certifying the reference), range, invariances; the real-valued map statistic -> p-value is an auxiliary '
+         'mpmath monitor whose boolean the trace specification requires.',
+         'Trusted: TLC; AUX (not model checking): mpmath transcriptions of the SP 800-22 formulas for Frequency, BlockFrequency, Runs, '
+         'LongestRuns, Serial, ApproximateEntropy, cumulative sums and excursions; exact-rational DP for longest-run tables; rank '
+         'distribution product formula. Spectral, rank, templates, Universal, LinearComplexity: ladder / thresholds / range / '
+         'invariances only. Known finding: the M = 10^4 table is NIST\'s printed (inexact) one.',
+         'TLA+ spec (NistStats.tla) model-checked with TLC (AppendBit machine vs definitions, lemmas) + threshold-grid and exhaustive short-string replays + TLC trace validation; real-valued formulas by an auxiliary monitor',
+         'DESIGN.md 5/C12')
+
+
 def main():
   props = [json.loads(l)['id'] for l in open(os.path.join(HOME, 'properties.jsonl'))]
   checks = []
